@@ -222,6 +222,10 @@ def tree_jobs(tier, which):
             jobs.append(Job("tree-map-cfg%d-U%d-values" % (cfg, 7 if X else 5), H, ["map", cfg, 7 if X else 5, 4], wraps=VA_WRAPS, weight=20 if X else 5))
     if which in ("map", "all"):
         jobs.append(bigfmt_job("qtreetbl"))
+        # histories without merging (hidden state the canonical key cannot know): from a tree of 5 keys every sequence of <= 3 (thorough 4) operations, reads included
+        for cfg in (0, 2):
+            for i in range(4):
+                jobs.append(Job("tree-hist-cfg%d-%d" % (cfg, i), H, ["map", cfg, 7, 2, "hist", 5, 4 if X else 3, i, 4], wraps=VA_WRAPS, weight=10))
     if which in ("walk", "all"):
         jobs.append(Job("tree-walk-U1", H, ["walk", 1, 0, 1], wraps=VA_WRAPS, weight=2))
         jobs.append(Job("tree-walk-U2", H, ["walk", 2, 0, 1], wraps=VA_WRAPS, weight=40))
